@@ -6,7 +6,7 @@ CONSTANTS
   Cfgs <- CfgStorePrime
   MaxEmit = 1
   MaxSreq = 0
-  MaxSa = 1
+  MaxSa = 0
   Gates = TRUE
 VIEW MCView
 CHECK_DEADLOCK FALSE
